@@ -311,6 +311,53 @@ func stdReaders(data []byte) []stdReader {
 	}
 }
 
+// stdWriter: the writer types callers actually pass. written() flushes what a buffering wrapper holds and returns
+// everything that reached the sink (nil = not observable).
+type stdWriter struct {
+	name    string
+	w       io.Writer
+	written func() []byte
+}
+
+const nStdWriters = 8
+
+// newStdWriter builds the i-th writer type (only the one asked for: the pipe starts a goroutine).
+func newStdWriter(i int) stdWriter {
+	switch i % nStdWriters {
+	case 0:
+		b := &bytes.Buffer{}
+		return stdWriter{"*bytes.Buffer", b, b.Bytes}
+	case 1, 2:
+		sz := []int{0, 16, 4096}[i%nStdWriters]
+		sink := &bytes.Buffer{}
+		bw := bufio.NewWriterSize(sink, sz)
+		return stdWriter{fmt.Sprintf("*bufio.Writer(%d)", sz), bw, func() []byte { bw.Flush(); return sink.Bytes() }}
+	case 3:
+		sb := &strings.Builder{}
+		return stdWriter{"*strings.Builder", sb, func() []byte { return []byte(sb.String()) }}
+	case 4:
+		m1, m2 := &bytes.Buffer{}, &bytes.Buffer{}
+		return stdWriter{"io.MultiWriter", io.MultiWriter(m1, m2), func() []byte {
+			if !bytes.Equal(m1.Bytes(), m2.Bytes()) {
+				return nil
+			}
+			return m1.Bytes()
+		}}
+	case 5:
+		return stdWriter{"io.Discard", io.Discard, nil}
+	case 6:
+		pr, pw := io.Pipe()
+		pbuf := &bytes.Buffer{}
+		done := make(chan struct{})
+		go func() { io.Copy(pbuf, pr); close(done) }()
+		return stdWriter{"*io.PipeWriter", pw, func() []byte { pw.Close(); <-done; return pbuf.Bytes() }}
+	default:
+		rwSink := &bytes.Buffer{}
+		rw := bufio.NewReadWriter(bufio.NewReader(strings.NewReader("")), bufio.NewWriterSize(rwSink, 64))
+		return stdWriter{"*bufio.ReadWriter", rw, func() []byte { rw.Flush(); return rwSink.Bytes() }}
+	}
+}
+
 // quotaWriter accepts exactly quota bytes in total and then fails with err. With transient set it
 // fails only once: later calls are accepted again (a correct caller never makes them).
 type quotaWriter struct {
